@@ -565,21 +565,18 @@ def _part_kinds(ex: Exec, N: Poly, label: str) -> List[Tuple[str, Poly, Optional
     n = ex.inst(N)
     un = ex.cur(V('u_')).unknowns()[0]
     e_, c_ = ex.cur(V('e_')), ex.cur(V('c_'))
-    if n.is_const():
+    if n.is_const() and 0 <= n.const_value() <= 4:
         k = n.const_value()
-        if not 0 <= k <= 4:
-            raise Undecided(f'{label}: constant number of parts {k} outside the analysed range')
         return [(f'part {j} of {k}', Poly.const(j), Poly.const(j + 1) if j + 1 < k else None, base) for j in range(k)]
-    if ex.is_stale(n) or any(u.startswith(('dq', 'dr')) for u in n.unknowns()):
-        # the part count is not a quantity of the decomposition in force (a result of a superseded division, an opaque quotient): nothing
-        # orders it against q, so the kinds of part are described relative to it and every obligation is left to a realisable refutation
+    k0 = n.const_value()
+    if not (set(n.t) <= {(), (un,)} and n.t.get((un,)) == 1 and 0 <= k0 <= 3):
+        # the part count is not a quantity k + u of the decomposition in force (a result of a superseded division, an opaque quotient, a
+        # clamp): nothing orders it against q, so the kinds of part are described relative to it (index >= 0 is a guard of the refutations;
+        # a proof holds for every value of the unknowns anyway)
+        if not (ex.script is not None or ex.trace or ex.gens):
+            raise Undecided(f'{label}: number of parts {n!r} is not of the form k + u')
         return [('last part', N - ONE, None, base), ('next-to-last part', N - Poly.const(2), N - ONE, base),
                 ('an earlier part', N - Poly.const(3) - c_, N - Poly.const(2) - c_, base)]
-    if not (set(n.t) <= {(), (un,)} and n.t.get((un,)) == 1):
-        raise Undecided(f'{label}: number of parts {n!r} is not of the form k + u')
-    k0 = n.const_value()
-    if not 0 <= k0 <= 3:
-        raise Undecided(f'{label}: number of parts {n!r} outside the analysed shapes')
     out = []
     for kd, back, extra in (('last part', 1, ZERO), ('next-to-last part', 2, ZERO), ('an earlier part', 3, c_)):
         sub = dict(base)
